@@ -17,6 +17,8 @@ import (
 	"berty.tech/go-orbit-db/iface"
 	"berty.tech/go-orbit-db/stores/operation"
 	cid "github.com/ipfs/go-cid"
+	cbornode "github.com/ipfs/go-ipld-cbor"
+	mh "github.com/multiformats/go-multihash"
 )
 
 // signerProvider signs with `as`'s key whatever identity block is named in the entry.
@@ -171,6 +173,18 @@ func (w *World) forge(ctx context.Context, toks []string) {
 	}
 	if x, ok := args["extra"]; ok {
 		next = append(next, w.entryByName(x).GetHash())
+	}
+	if args["badparent"] == "noclock" {
+		// a parent that is an entry-shaped block WITHOUT the `clock` field (whoever writes an entry chooses
+		// what its links point to): made from the block of an entry of the attacker's own, stored like any
+		// block; it is not an entry of the scenario (no name: `e0` in the trace)
+		if c, err := w.clocklessBlock(ctx, att); err == nil {
+			next = append(next, c)
+		} else {
+			w.lastForged = "e0"
+			w.printf("forged %d err %s\n", a, strings.ReplaceAll(err.Error(), "\n", " "))
+			return
+		}
 	}
 	if next == nil {
 		next = []cid.Cid{}
@@ -498,4 +512,40 @@ func flipS(der []byte) []byte {
 	out = append(out, r...)
 	out = append(out, 0x02, byte(len(sb)))
 	return append(out, sb...)
+}
+
+// clocklessBlock stores, on the attacker's node, a copy of the block of a fresh honest entry of its own
+// with the `clock` field removed, and returns its address.
+func (w *World) clocklessBlock(ctx context.Context, att *Peer) (cid.Cid, error) {
+	io := w.stores0().IO()
+	data := &entry.Entry{
+		LogID:   w.dbAddr,
+		Payload: w.payloadFor([]byte("zz"), []byte("template")),
+		Next:    []cid.Cid{},
+		Refs:    []cid.Cid{},
+		Clock:   entry.NewLamportClock(att.identity.PublicKey, 1),
+	}
+	ie, err := entry.CreateEntryWithIO(ctx, att.api, att.identity, data, nil, io)
+	if err != nil {
+		return cid.Undef, err
+	}
+	nd, err := att.api.Dag().Get(ctx, ie.GetHash())
+	if err != nil {
+		return cid.Undef, err
+	}
+	var m map[string]interface{}
+	if err := cbornode.DecodeInto(nd.RawData(), &m); err != nil {
+		return cid.Undef, err
+	}
+	delete(m, "clock")
+	bad, err := cbornode.WrapObject(m, mh.SHA2_256, -1)
+	if err != nil {
+		return cid.Undef, err
+	}
+	// (the template itself is nobody's business)
+	w.blocks.Drop(ie.GetHash())
+	if err := att.api.Dag().Add(ctx, bad); err != nil {
+		return cid.Undef, err
+	}
+	return bad.Cid(), nil
 }
